@@ -120,22 +120,47 @@ def _cls(name):
     return _SUB["Sub"]
 
 
-def _build_tree(case, kids, root, n_total_before=0):
-    """Create one object per tag (in tag order), then link them with valid operations only.
-    kids is indexed by local tag (0..len-1); returns the list of objects by local tag."""
-    cls = _cls(case["cls"])
+def _make_objs(case, kids, n_total_before=0):
+    """one object per tag, in tag order"""
     ci = _child_index(kids)
     n = len(kids)
+    if case["cls"] == "Binary":
+        from bigtree.node.binarynode import BinaryNode
+        return [BinaryNode(_name(case, t + n_total_before, ci.get(t, 0))) for t in range(n)]
+    cls = _cls(case["cls"])
     if case["cls"] == "BaseNode":
-        objs = [cls() for _ in range(n)]
-    else:
-        objs = [cls(_name(case, t + n_total_before, ci.get(t, 0))) for t in range(n)]
+        return [cls() for _ in range(n)]
+    return [cls(_name(case, t + n_total_before, ci.get(t, 0))) for t in range(n)]
+
+
+def _slots(case, kids, p, sides):
+    """BinaryNode: the pair of slots of node p (an only child sits on the side recorded in the case)"""
+    cs = kids[p]
+    if len(cs) == 2:
+        return [cs[0], cs[1]]
+    if len(cs) == 1:
+        return [cs[0], None] if not (sides and sides[p]) else [None, cs[0]]
+    return [None, None]
+
+
+def _link(case, objs, kids, root, sides=None):
+    """link the objects into the given shape with valid operations only"""
     modes = case.get("build") or ["children"]
     for k, p in enumerate(preorder(kids, root)):
         if not kids[p]:
             continue
         mode = modes[k % len(modes)]
-        if mode == "children":
+        if case["cls"] == "Binary":
+            l, r = [None if c is None else objs[c] for c in _slots(case, kids, p, sides)]
+            if mode in ("parent", "rshift", "append") and l is not None:
+                if r is None:
+                    objs[p].left = l
+                else:
+                    objs[p].left = l
+                    objs[p].right = r
+            else:
+                objs[p].children = [l, r]
+        elif mode == "children":
             objs[p].children = [objs[c] for c in kids[p]]
         elif mode == "tuple":
             objs[p].children = tuple(objs[c] for c in kids[p])
@@ -150,19 +175,77 @@ def _build_tree(case, kids, root, n_total_before=0):
                 objs[p].append(objs[c])
         else:
             objs[p].extend([objs[c] for c in kids[p]])
-    return objs
+
+
+_QUERIES = ["ancestors", "descendants", "leaves", "siblings", "left_sibling", "right_sibling", "node_path",
+            "is_root", "is_leaf", "root", "diameter", "depth", "max_depth"]
+
+
+def _warm(objs):
+    """ask every query of every object and throw the answers away (anything remembered from now on is stale later)"""
+    for o in objs:
+        for q in _QUERIES:
+            v = getattr(o, q)
+            if q in ("ancestors", "descendants", "leaves", "siblings", "node_path"):
+                list(v)
+    if len(objs) >= 2:
+        try:
+            objs[0].go_to(objs[-1])
+        except Exception:
+            pass
+
+
+def _strict_int(x):
+    if type(x) is not int:
+        raise TypeError("a number query returned %r of type %s" % (x, type(x).__name__))
+    return x
+
+
+def _strict_bool(x):
+    if type(x) is not bool:
+        raise TypeError("a yes/no query returned %r of type %s" % (x, type(x).__name__))
+    return x
 
 
 def _run_tree(case):
     kids, root = case["kids"], case["root"]
     n = len(kids)
-    objs = _build_tree(case, kids, root)
-    idx = {id(o): t for t, o in enumerate(objs)}
+    sides = case.get("sides")
+    objs = _make_objs(case, kids)
     others = []
+    okids = oroot = None
     if case.get("other"):
-        others = _build_tree(case, case["other"]["kids"], case["other"]["root"], n_total_before=n)
-        for t, o in enumerate(others):
-            idx[id(o)] = n + t
+        okids, oroot = case["other"]["kids"], case["other"]["root"]
+        others = _make_objs(case, okids, n_total_before=n)
+    idx = {id(o): t for t, o in enumerate(objs)}
+    for t, o in enumerate(others):
+        idx[id(o)] = n + t
+    history = case.get("history", "fresh")
+    if history == "rebuild":
+        # all objects first form ONE other tree (pre[i] < i is the parent of object i), every query is asked,
+        # then everything is detached again and the shapes of the case are built from the used objects
+        allo = objs + others
+        pre = case["pre"]
+        for i in range(1, len(allo)):
+            allo[i].parent = allo[pre[i]]
+        _warm(allo)
+        for o in reversed(allo):
+            o.parent = None
+    _link(case, objs, kids, root, sides)
+    if others:
+        _link(case, others, okids, oroot, case["other"].get("sides"))
+    if history == "roundtrip":
+        # a subtree is taken out (or hung somewhere else) and put back at its old place
+        _warm(objs)
+        x = objs[case["rt_node"]]
+        par = x.parent
+        orig = list(par.children)
+        if case.get("rt_to") is not None:
+            x.parent = objs[case["rt_to"]]
+        else:
+            x.parent = None
+        _warm(objs)
+        par.children = orig
 
     def tg(x):
         return idx[id(x)]          # KeyError (a harness error) when something that is not one of our nodes comes back
@@ -170,25 +253,35 @@ def _run_tree(case):
     def tgo(x):
         return None if x is None else tg(x)
 
-    nodes = []
-    for t in preorder(kids, root):
-        o = objs[t]
-        nodes.append({
+    binary = case["cls"] == "Binary"
+
+    def ask(o, t):
+        sibs = list(o.siblings)
+        if binary:                 # the empty-slot entries are checked by the `binary` cases (slot semantics)
+            sibs = [x for x in sibs if x is not None]
+        return {
             "self": t,
             "anc": [tg(x) for x in o.ancestors],
             "desc": [tg(x) for x in o.descendants],
             "leaves": [tg(x) for x in o.leaves],
-            "sibs": [tg(x) for x in o.siblings],
+            "sibs": [tg(x) for x in sibs],
             "left": tgo(o.left_sibling),
             "right": tgo(o.right_sibling),
             "path": [tg(x) for x in o.node_path],
-            "isroot": bool(o.is_root),
-            "isleaf": bool(o.is_leaf),
+            "isroot": _strict_bool(o.is_root),
+            "isleaf": _strict_bool(o.is_leaf),
             "root": tg(o.root),
-            "diam": int(o.diameter),
-            "depth": int(o.depth),
-            "maxdepth": int(o.max_depth),
-        })
+            "diam": _strict_int(o.diameter),
+            "depth": _strict_int(o.depth),
+            "maxdepth": _strict_int(o.max_depth),
+        }
+
+    nodes = []
+    for t in preorder(kids, root):
+        first = ask(objs[t], t)
+        if ask(objs[t], t) != first:
+            raise AssertionError("asking node %d the same queries twice gave different answers" % t)
+        nodes.append(first)
     gotos = []
     for s, a in case["gotos"]:
         if a[0] == "same":
@@ -199,11 +292,16 @@ def _run_tree(case):
             arg = _junk(a[1])
         try:
             r = objs[s].go_to(arg)
-            gotos.append([0, [tg(x) for x in r]])
-        except KeyError:
-            raise
         except Exception as e:
             gotos.append([exn_code(e), []])
+        else:
+            gotos.append([0, [tg(x) for x in r]])
+    # the queries are read-only: the links are still the ones that were built
+    for t in range(n):
+        want = _slots(case, kids, t, sides) if binary else kids[t]
+        got = [None if c is None else tg(c) for c in objs[t].children]
+        if got != want:
+            raise AssertionError("children of node %d after the queries: %r, built: %r" % (t, got, want))
     return {"nodes": nodes, "gotos": gotos}
 
 
@@ -455,16 +553,62 @@ BUILD_MODES = ["children", "tuple", "parent", "rshift", "append", "extend"]
 JUNK_KINDS = ["none", "str", "int", "dag", "list", "obj"]
 
 
-def make_case(rng, shape, cls=None, tagging=None, all_pairs_upto=7, max_pairs=26):
-    cls = cls or rng.choice(["Node", "Node", "BaseNode", "Sub"])
+def shape_fanout(s):
+    return max([len(s)] + [shape_fanout(c) for c in s])
+
+
+def random_binary_shape(rng, n, deep=False):
+    par = [None]
+    fan = [0]
+    for i in range(1, n):
+        cands = [j for j in range(i) if fan[j] < 2]
+        p = i - 1 if (deep and rng.random() < 0.6 and fan[i - 1] < 2) else rng.choice(cands)
+        par.append(p)
+        fan.append(0)
+        fan[p] += 1
+    return shape_from_parents(par)
+
+
+def make_case(rng, shape, cls=None, tagging=None, all_pairs_upto=7, max_pairs=26, history=None):
+    binary_ok = shape_fanout(shape) <= 2
+    cls = cls or rng.choice(["Node", "Node", "BaseNode", "Sub"] + (["Binary"] if binary_ok else []))
     tagging = tagging or rng.choice(["preorder", "random", "random", "reverse"])
     kids, root = number_shape(rng, shape, tagging)
     n = len(kids)
-    oshape = random_shape(rng, "mixed", rng.randint(1, 3))
+    oshape = random_binary_shape(rng, rng.randint(1, 3)) if cls == "Binary" else random_shape(rng, "mixed", rng.randint(1, 3))
     okids, oroot = number_shape(rng, oshape, "preorder")
     case = {"kind": "tree", "cls": cls, "names": rng.choice(["distinct", "repeated"]),
             "build": [rng.choice(BUILD_MODES) for _ in range(rng.randint(1, 3))],
             "kids": kids, "root": root, "other": {"kids": okids, "root": oroot}}
+    if cls == "Binary":
+        case["sides"] = [rng.randrange(2) for _ in range(n)]
+        case["other"]["sides"] = [rng.randrange(2) for _ in okids]
+    # how the objects got into this shape: built once | used in another tree before | a subtree taken out and put back
+    history = history or rng.choice(["fresh", "fresh", "rebuild", "roundtrip"])
+    if history == "roundtrip" and n < 2:
+        history = "fresh"
+    case["history"] = history
+    if history == "rebuild":
+        case["names"] = "distinct"          # sibling names must not clash in the earlier tree either
+        total = n + len(okids)
+        fan = [0] * total
+        pre = [None]
+        for i in range(1, total):
+            cands = [j for j in range(i) if cls != "Binary" or fan[j] < 2]
+            pj = rng.choice(cands)
+            fan[pj] += 1
+            pre.append(pj)
+        case["pre"] = pre
+    elif history == "roundtrip":
+        x = rng.choice([t for t in range(n) if t != root])
+        case["rt_node"] = x
+        case["rt_to"] = None
+        if cls != "Binary" and (cls == "BaseNode" or case["names"] == "distinct") and rng.random() < 0.6:
+            below = set(preorder(kids, x))
+            par_x = parent_map(kids)[x]
+            cands = [t for t in range(n) if t not in below and t != par_x]
+            if cands:
+                case["rt_to"] = rng.choice(cands)
     tags = list(range(n))
     if n <= all_pairs_upto:
         pairs = [[a, ["same", b]] for a in tags for b in tags]
@@ -502,6 +646,15 @@ def make_case(rng, shape, cls=None, tagging=None, all_pairs_upto=7, max_pairs=26
                     add(rng.choice(kids[a]), rng.choice(kids[b]))
         x = rng.choice(pre)
         add(x, x)
+        add(root, root)
+        dep = depth_of(kids, root)
+        lvs = [t for t in pre if not kids[t]]
+        deepest = max(lvs, key=lambda t: dep[t])
+        add(root, deepest)              # root <-> deepest leaf, leaf <-> leaf, leaf <-> itself
+        add(deepest, root)
+        add(lvs[0], lvs[-1])
+        add(lvs[-1], lvs[0])
+        add(deepest, deepest)
         while len(pairs) < max_pairs:
             add(rng.choice(pre), rng.choice(pre))
     on = len(okids)
@@ -541,6 +694,10 @@ def corpus(prop):
     out.append(("late-arms", make_case(rng, [[[], [], [[]], [], [[], [[]]]]], cls="BaseNode", tagging="random")))
     # diameter inside a subtree, not through the root
     out.append(("deep-diameter", make_case(rng, [[[[[]]], [[[]]]], []], cls="Node", tagging="reverse")))
+    out.append(("fixture-rebuilt", make_case(rng, fixture, cls="Node", tagging="random", all_pairs_upto=8, history="rebuild")))
+    out.append(("fixture-roundtrip", make_case(rng, fixture, cls="Sub", tagging="preorder", all_pairs_upto=8, history="roundtrip")))
+    out.append(("fixture-binary", make_case(rng, fixture, cls="Binary", tagging="preorder", all_pairs_upto=8, history="rebuild")))
+    out.append(("single", make_case(rng, [], cls="Binary", tagging="preorder")))
     out.append(("single", make_case(rng, [], cls="Node", tagging="preorder")))
     out.append(("single", make_case(rng, [], cls="BaseNode", tagging="preorder")))
     out.append(("binary", {"kind": "binary", "slots": [[None, None]], "root": 0, "build": ["children"], "ext": "none"}))
@@ -573,6 +730,18 @@ def generate(prop, rng, tier):
             n = rng.randint(2, 9) if style in ("path", "star") else rng.randint(4, 12)
             shape = random_shape(rng, style, n)
         yield style, make_case(rng, shape)
+    # BinaryNode trees asked the same 13 queries and go_to (image without the empty slots; the empty-slot
+    # entries of siblings are checked by the `binary` cases below)
+    for shape in shapes_upto(min(small, 6)):
+        if shape_fanout(shape) <= 2:
+            yield "binary-queries-exhaustive", make_case(rng, shape, cls="Binary")
+    for i in range(count // 9):
+        yield "binary-queries", make_case(rng, random_binary_shape(rng, rng.randint(2, 12), deep=i % 2 == 0), cls="Binary")
+    # long routes: 25-40 nodes, depth up to 40
+    for i in range({"quick": 3, "thorough": 40, "search": 6}[tier]):
+        n = rng.randint(25, 40)
+        par = [None] + [(j - 1 if rng.random() < 0.85 else rng.randrange(j)) for j in range(1, n)]
+        yield "very-deep", make_case(rng, shape_from_parents(par), max_pairs=16)
     for i in range(nbin):
         yield "binary", make_binary_case(rng, rng.randint(1, 9))
 
@@ -593,6 +762,16 @@ def _remove_leaf(case, leaf):
     c = dict(case)
     c["kids"] = nk
     c["root"] = ren(case["root"])
+    if case.get("sides"):
+        c["sides"] = [x for t, x in enumerate(case["sides"]) if t != leaf]
+    if case.get("history") == "rebuild":
+        c["pre"] = [None] + list(range(len(nk) + len(case["other"]["kids"]) - 1))      # a chain
+    if case.get("history") == "roundtrip":
+        if case["rt_node"] == leaf or case.get("rt_to") == leaf or len(nk) < 2:
+            c["history"] = "fresh"
+        else:
+            c["rt_node"] = ren(case["rt_node"])
+            c["rt_to"] = None if case.get("rt_to") is None else ren(case["rt_to"])
     g = []
     for s, a in case["gotos"]:
         if s == leaf or (a[0] == "same" and a[1] == leaf):
@@ -630,16 +809,19 @@ def shrink_candidates(prop, case):
             yield dict(case, gotos=g[:k] + g[k + 1:])
     elif len(g) == 1:
         yield dict(case, gotos=[])
+    if case.get("history", "fresh") != "fresh":
+        yield dict(case, history="fresh")
     if case.get("build") != ["children"]:
         yield dict(case, build=["children"])
-    if case["cls"] != "Node":
+    if case["cls"] not in ("Node", "Binary"):
         yield dict(case, cls="Node")
 
 
 def size(case):
     if case["kind"] == "binary":
         return len(case["slots"])
-    return 10 * len(case["kids"]) + len(case["gotos"]) + (0 if case.get("build") == ["children"] else 1)
+    return (10 * len(case["kids"]) + len(case["gotos"]) + (0 if case.get("build") == ["children"] else 1)
+            + (0 if case.get("history", "fresh") == "fresh" else 2))
 
 
 def nontrivial(prop, case, obs):
@@ -652,20 +834,24 @@ def sample(prop, case, obs):
     if case["kind"] == "binary":
         return {"kind": "binary", "slots": case["slots"], "ext": case.get("ext", "none"),
                 "is_leaf": [b[1] for b in obs["bin"]], "ext_values": [b[2] for b in obs["bin"]]}
-    return {"class": case["cls"], "kids": case["kids"], "root": case["root"],
+    return {"class": case["cls"], "history": case.get("history", "fresh"), "kids": case["kids"], "root": case["root"],
             "first_node": obs["nodes"][0] if obs.get("nodes") else None,
             "gotos": list(zip(case["gotos"][:3], obs["gotos"][:3]))}
 
 
 def rule(prop):
-    return ("every node of a generated tree is asked all 13 derived queries, go_to is asked for every ordered pair of nodes "
-            "(<= 7 nodes) or a biased sample (ancestor/descendant, siblings, cousins, self, random), for a node of a second "
-            "tree and for a non-node; shapes: all ordered trees up to 6 (quick) / 8 (thorough) nodes, then random "
-            "wide/deep/mixed/path/star/broom/caterpillar/tallest-children-last shapes with <= 12 nodes built through "
-            "children=/parent=/>>/append/extend on BaseNode, Node and a Node subclass, tags in pre-order/reverse/random "
-            "creation order; BinaryNode trees with empty slots for is_leaf and the inherited BaseNode.diameter / siblings (the other slot entries, None for an empty slot); "
-            "non-trivial = >= 3 nodes (binary: >= 2); "
-            "distinct by canonical JSON hash")
+    return ("every node of a generated tree is asked all 13 derived queries TWICE (answers must repeat; numbers must be int, "
+            "yes/no answers bool; sequences are compared in order), go_to is asked for every ordered pair of nodes (<= 7 nodes) "
+            "or a biased sample (ancestor/descendant both ways, siblings, cousins, node with itself, root with itself, root <-> "
+            "deepest leaf, leaf <-> leaf, random), for nodes of a second tree and for a non-node; afterwards the children links "
+            "must still be the built ones; shapes: all ordered trees up to 6 (quick) / 8 (thorough) nodes incl. the one-node tree, "
+            "random wide/deep/mixed/path/star/broom/caterpillar/tallest-children-last shapes with <= 12 nodes, a few 25-40 node "
+            "trees of depth up to 40; classes BaseNode, Node, a Node subclass and BinaryNode (fan-out <= 2, only children on "
+            "either side); object histories: built once through children=/tuple/parent=/>>/append/extend | all objects (both "
+            "trees) first linked into one other tree, queried, detached, then rebuilt | a subtree detached or hung elsewhere, "
+            "queried, and put back; tags in pre-order/reverse/random creation order; `binary` cases: BinaryNode trees with empty "
+            "slots for is_leaf and the inherited diameter / siblings (the other slot entries, None for an empty slot); "
+            "non-trivial = >= 3 nodes (binary: >= 2); distinct by canonical JSON hash")
 
 
 def explain(prop, case, obs, flags):
@@ -682,4 +868,14 @@ def trusted_base(prop):
 
 
 def partial_clauses(prop):
-    return []
+    """accepted blind spots of the correspondence (nothing of the theorem list is partial)"""
+    return [
+        "not compared: the container type of an answer (tuple / list / generator), exception messages; the exception class "
+        "of a refused go_to is compared with the model (TreeError / TypeError) but the property predicate only asks for a refusal",
+        "go_to is always asked OF a node of the first tree (towards the first tree, the second tree, a non-node), never of a node of the second tree",
+        "BinaryNode trees asked the 13 queries: the None entries of siblings are dropped there and checked (slot semantics) only by the `binary` cases",
+        "routes longer than 40 nodes are not generated (depth / root / node_path recurse per level: CPython's recursion limit near depth 1000 is not modelled)",
+        "node subclasses that override __eq__ / __hash__ / __bool__ / __len__ are not generated (the code mixes `is`, ==, != and truthiness tests; "
+        "on the unchanged tree a subclass with __len__ = number of children loses its leaves from descendants / leaves and diameter raises ValueError)",
+        "object histories are limited to rebuild-after-detach and one subtree round trip; no failing hooks, no sort(), no DAGNode",
+    ]
